@@ -39,6 +39,7 @@ class World(object):
         self.messages = messages
         self.delivered = collections.Counter()    # (msg id, side) -> count
         self.pubs = dict()
+        self.port_replies = list()
 
         for side in self.sides:
             reg = net.Registry()
@@ -82,12 +83,67 @@ class World(object):
                 from radical.pilot.messages import RPCResultMessage
                 msg = RPCResultMessage(uid='rpc.%d' % i, val=1).as_dict()
                 msg['arg'] = {'id': i}
+            elif isinstance(fwd, str) and fwd.startswith('port'):
+                # the message enters through the agent's command port: the
+                # real Agent_0.command_port() relays it to the control pubsub
+                msg = {'cmd': 'test', 'arg': {'id': i}}
+                if 'typed' in fwd:
+                    msg = {'_msg_type': 'rpc_req', 'uid': 'rpc.%d' % i,
+                           'cmd': 'test', 'args': [], 'kwargs': {},
+                           'arg': {'id': i}}
+                if fwd.endswith(':True') : msg['fwd'] = True
+                if fwd.endswith(':False'): msg['fwd'] = False
+                self._through_command_port(side, msg)
+                continue
             else:
                 msg = {'cmd': 'test', 'arg': {'id': i}}
                 if fwd    is not None: msg['fwd']    = fwd
                 if origin is not None: msg['origin'] = origin
             self.pubs[(side, kind)].put(LOCAL[kind], msg)
         self.n_deliveries = 0
+        self.cb_errors    = list()
+
+    def _through_command_port(self, side, msg):
+        import json
+        from radical.pilot.agent import agent_0 as a0mod
+        world = self
+
+        class Done(BaseException):
+            pass
+
+        class Conn(object):
+            def recv(self_, n): return json.dumps(msg).encode()
+            def sendall(self_, data): world.port_replies.append(data)
+            def close(self_): pass
+
+        class Sock(object):
+            n = 0
+            def bind(self_, addr): pass
+            def listen(self_, n): pass
+            def accept(self_):
+                Sock.n += 1
+                if Sock.n > 1:
+                    raise Done()
+                return Conn(), ('127.0.0.1', 1)
+
+        class FakeSocket(object):
+            AF_INET, SOCK_STREAM = 0, 0
+            def socket(self_, *a): return Sock()
+
+        a = a0mod.Agent_0.__new__(a0mod.Agent_0)
+        a._log    = seams.null()
+        a.publish = lambda ch, m: world.pubs[(side, 'control')].put(ch, m)
+        saved = (a0mod.socket, ru.find_port, ru.get_hostip, ru.write_json)
+        a0mod.socket  = FakeSocket()
+        ru.find_port  = lambda *a_, **k: 10000
+        ru.get_hostip = lambda *a_, **k: '127.0.0.1'
+        ru.write_json = lambda *a_, **k: None
+        try:
+            a.command_port()
+        except Done:
+            pass
+        finally:
+            a0mod.socket, ru.find_port, ru.get_hostip, ru.write_json = saved
 
     def _app_cb(self, side):
         def cb(topic, msg):
@@ -98,7 +154,14 @@ class World(object):
         return self.net.pending()
 
     def deliver(self, key):
-        self.net.deliver(key)
+        try:
+            self.net.deliver(key)
+        except Exception as e:
+            # the subscriber thread logs a failing callback and carries on:
+            # what the forwarder did not get done shows in the delivery counts
+            if isinstance(e, KeyError) and e.args and e.args[0] == key:
+                raise                    # the harness' own lookup
+            self.cb_errors.append(repr(e))
         self.n_deliveries += 1
 
     def canon(self):
@@ -114,6 +177,9 @@ class World(object):
                 kind, fwd, 'none' if origin is None else
                 'self' if origin == side else
                 'other' if origin in self.sides else 'unknown')
+            if isinstance(fwd, str) and fwd.startswith('port'):
+                # relayed with the flag it carries; without one it stays
+                fwd = fwd.endswith(':True')
             if fwd and origin in (None, side):
                 ref = {s: 1 for s in self.sides}
             else:
@@ -203,6 +269,11 @@ def message_alphabet(n_pilots):
     for side in sides:
         out.append(('control', side, 'rpc_req', None))
         out.append(('control', side, 'rpc_res', None))
+    # messages entering a pilot through its command port
+    for side in sides[1:2]:
+        for flag in ('port:none', 'port:False', 'port:True',
+                     'port-typed:none', 'port-typed:False', 'port-typed:True'):
+            out.append(('control', side, flag, None))
     return out
 
 
